@@ -63,6 +63,35 @@ class C20(Prop):
     def cases(self, tier, rng):
         out = []
         for k in range(self.n(tier)):
+            if k % 16 == 7:
+                # two bound sites on one item: a type-level helper attribute `#[ord(bound(T: HasKey, ..))]` supplies what
+                # the key expression needs and keeps going; the list's own `bound(u8: Copy)` (no `..`) then ends the
+                # resolution.  Documented order: helper attribute first - so the predicate must be there.
+                want = [t for t in CMP if rng.random() < 0.5] or ['PartialEq']
+                sset = set(want)
+                for t in list(sset):
+                    sset.update(SUPER.get(t, []))
+                traits = [t for t in CMP if t in sset]
+                hk = sx.b_pred(sx.wty(T, [sx.tb_trait(['HasKey'])]))
+                triv = sx.b_pred(sx.wty(sx.tid('u8'), [sx.tb_trait(['Copy'])]))
+                tattr = [sx.a_cmp('ord', sx.m_list(sx.cargs(bnd=[hk, sx.B_DOTS])))]
+                kf = sx.field(T, attrs=[sx.a_cmp('ord', sx.m_list(sx.cargs(key='$ . k ( )')))])
+                other = sx.field(sx.tid('u8'))
+                enum_ = k % 32 == 7
+                if enum_:
+                    it = sx.enum('E', [sx.variant('V0', sx.unnamed([other, kf])), sx.variant('V1', sx.UNIT)],
+                                 attrs=tattr, gen=sx.generics([sx.gp_ty('T')]))
+                    kw = '(enum ('
+                else:
+                    it = sx.struct('X', sx.unnamed([kf, other]), attrs=tattr, gen=sx.generics([sx.gp_ty('T')]))
+                    kw = '(struct ('
+                mode = 'attr' if k % 2 else 'derive'
+                tl = [(t, None) for t in traits]
+                req = sx.inv_attr(sx.dx(tl, bnd=[triv]), it) if mode == 'attr' else sx.inv_derive(
+                    kw + sx.a_derive_ex(sx.dx(tl, bnd=[triv])) + ' ' + it[len(kw):])
+                out.append((req, dict(features=('two-bound-sites', 'enum' if enum_ else 'struct', mode) + tuple('tr-' + t for t in traits),
+                                      traits=traits, nontrivial=True)))
+                continue
             is_enum = rng.random() < 0.45
             pool = BOTH if is_enum else BOTH + STRUCT_ONLY
             want = [t for t in pool if rng.random() < 0.3] or [rng.choice(pool)]
